@@ -49,6 +49,10 @@ func c01GrpcErr(class string) error {
 		return fmt.Errorf("wrapped: %w", context.DeadlineExceeded)
 	case class == "canceled":
 		return context.Canceled
+	case class == "wcanceled":
+		return fmt.Errorf("wrapped: %w", context.Canceled)
+	case class == "wother":
+		return fmt.Errorf("wrapped: %w", errors.New("c01 other"))
 	case class == "brkopen":
 		return breaker.ErrServiceUnavailable
 	case class == "wbrkopen":
@@ -83,8 +87,11 @@ func c01RetClass(err, want error, ctx context.Context, ran bool) string {
 }
 
 func TestVerifC01ZrpcServer(t *testing.T) {
-	good := []string{"nil", "g0", "g1", "g2", "g3", "g5", "g6", "g7", "g9", "g10", "g11", "g16", "gw5", "other", "canceled"}
-	bad := []string{"g4", "g8", "g12", "g13", "g14", "g15", "gw13", "gw14", "deadline", "wdeadline", "brkopen", "wbrkopen"}
+	// every code 0..17, bare and wrapped with %w; both sentinels of serverSideAcceptable, bare and wrapped
+	good := []string{"nil", "g0", "g1", "g2", "g3", "g5", "g6", "g7", "g9", "g10", "g11", "g16", "g17",
+		"gw1", "gw2", "gw3", "gw5", "gw6", "gw7", "gw9", "gw10", "gw11", "gw16", "gw17", "other", "wother", "canceled", "wcanceled"}
+	bad := []string{"g4", "g8", "g12", "g13", "g14", "g15", "gw4", "gw8", "gw12", "gw13", "gw14", "gw15",
+		"deadline", "wdeadline", "brkopen", "wbrkopen"}
 	specs := []verifc01.SiteSpec{
 		{Site: "zsunary", Good: good, Bad: bad},
 		{Site: "zsstream", Good: good, Bad: bad, NoCtx: true},
